@@ -97,6 +97,17 @@ def lowering_failure_sites(F, cg):
                         for og in mir.provenance(f, du, o):
                             if og.kind == "const" and "str" in og.const:
                                 msg = og.const["str"]
+                if not msg:
+                    # the constructor sits in a helper (`fn missing_field(block: &'static str, name: &str)`): the message is what
+                    # the callers pass (when they all pass the same text)
+                    from ..common import outer_origins
+                    for o in rv["ops"]:
+                        texts = set()
+                        for _, og in outer_origins(F, f, o, depth=3, transparent_extra=("std::string::ToString::to_string", "std::borrow::ToOwned::to_owned", "std::convert::From::from", "std::convert::Into::into")):
+                            sv = mir.promoted_str(F, og.const) if og.kind == "const" else None
+                            texts.add(sv)
+                        if len(texts) == 1 and None not in texts:
+                            msg = texts.pop()
                 sites.append((f, bi, s["line"], rv["variant"], msg[:50]))
     return reach, sites
 
